@@ -180,7 +180,7 @@ PROPS = {
         "bin": "check-t",
         "design_ref": "§5, §7 C03, §13.9",
         "more_parts": [{"engine": "M", "package": "check-k", "bin": "check-k", "share": 1}],
-        "technique": "deterministic simulation: the real compio-executor (hook H4) on shuttle coroutines with decider-driven context switches; 1-3 waker threads deliver concurrent and repeated cross-thread wakes (wake / wake_by_ref / clone) through a 1-2 entry cross-thread queue while the home thread ticks and parks; event-then-wake discipline, completion-by-quiescence and deadlock oracles; second part (Engine M, real threads one at a time): a whole compio runtime on the simulated io_uring kernel, blocked or about to block in its driver, in its own loop (block_on) or driven from outside (run/poll_with), with a cross-thread queue of 1, 2 or 64 entries; 1..3 real waker threads deliver events to 1..4 tasks and to the root future (event first, then the waker, by value or by reference, repeated, from two threads) through the real notifier (AwakeFlag + eventfd into the ring); wake-lost oracle (everything completes without the 10 s guard timer); choice-sequence minimisation and replay",
+        "technique": "deterministic simulation: the real compio-executor (hook H4) on shuttle coroutines with decider-driven context switches; 1-3 waker threads deliver concurrent and repeated cross-thread wakes (wake / wake_by_ref / clone) through a 1-2 entry cross-thread queue while the home thread ticks and parks; event-then-wake discipline, completion-by-quiescence and deadlock oracles; second part (Engine M, real threads one at a time): a whole compio runtime on the simulated io_uring kernel, blocked or about to block in its driver, in its own loop (block_on) or driven from outside (run/poll_with, or the foreign-event-loop protocol on the polling driver: run, flush, park on the driver's descriptor until it is readable, poll), with a cross-thread queue of 1, 2 or 64 entries and 0..16 receives on silent sockets in flight (submission queue full when the notifier is armed); 1..3 real waker threads deliver events to 1..4 tasks and to the root future (event first, then the waker, by value or by reference, repeated, from two threads) through the real notifier (AwakeFlag + eventfd into the ring); wake-lost oracle (everything completes without the 10 s guard timer); choice-sequence minimisation and replay",
         "tiers": {
             "quick": {"runs": 110_000, "time_limit_s": 60},
             "thorough": {"runs": 40_000_000, "time_limit_s": 1500},
